@@ -34,3 +34,182 @@ pub open spec fn tr_bar(prev: Option<f64>, h: real, l: real) -> real {
     match prev { Some(p) => rmax(rmax(h - l, rabs(h - rv(p))), rabs(l - rv(p))), None => h - l }
 }
 
+
+// ---- weighted sums (WMA): weights 1..k, oldest lightest, newest heaviest
+pub open spec fn seq_wsum(s: Seq<f64>) -> real decreases s.len() {
+    if s.len() == 0 { 0real } else { seq_wsum(s.drop_last()) + (s.len() as real) * rv(s.last()) }
+}
+pub open spec fn tri(k: real) -> real { k * (k + 1real) / 2real }
+pub open spec fn seq_wmean(w: Seq<f64>) -> real { seq_wsum(w) / tri(w.len() as real) }
+pub proof fn lemma_wsum_push(s: Seq<f64>, x: f64)
+    ensures seq_wsum(s.push(x)) == seq_wsum(s) + ((s.len() + 1) as real) * rv(x)
+{ assert(s.push(x).drop_last() =~= s); }
+// dropping the oldest lowers every weight by one: wsum(s[1..]) = wsum(s) - sum(s)
+pub proof fn lemma_wsum_drop_first(s: Seq<f64>)
+    requires s.len() >= 1
+    ensures seq_wsum(s.subrange(1, s.len() as int)) == seq_wsum(s) - seq_sum(s)
+    decreases s.len()
+{
+    if s.len() == 1 {
+        assert(s.drop_last() =~= Seq::<f64>::empty());
+        assert(s.subrange(1, 1) =~= Seq::<f64>::empty());
+        assert(seq_sum(s.drop_last()) == 0real);
+        assert(seq_wsum(s.drop_last()) == 0real);
+        assert(s.last() == s[0]);
+        assert(1real * rv(s[0]) == rv(s[0])) by(nonlinear_arith);
+    } else {
+        let t = s.subrange(1, s.len() as int);
+        lemma_wsum_drop_first(s.drop_last());
+        assert(t.drop_last() =~= s.drop_last().subrange(1, s.len() - 1));
+        assert(t.last() == s.last());
+        let n = s.len() as real; let x = rv(s.last());
+        assert(t.len() as real == n - 1real);
+        assert((n - 1real) * x == n * x - x) by(nonlinear_arith);
+    }
+}
+pub proof fn lemma_wsum_step(w: Seq<f64>, x: f64, n: int)
+    requires n >= 1, w.len() <= n
+    ensures seq_wsum(push_trunc(w, x, n)) ==
+        (if w.len() < n { seq_wsum(w) + ((w.len() + 1) as real) * rv(x) } else { seq_wsum(w) - seq_sum(w) + (n as real) * rv(x) })
+{
+    if w.len() < n { lemma_wsum_push(w, x); }
+    else {
+        lemma_wsum_drop_first(w);
+        lemma_wsum_push(w.subrange(1, w.len() as int), x);
+    }
+}
+pub proof fn lemma_tri_pos(k: real)
+    requires k >= 1real
+    ensures tri(k) > 0real
+{
+    assert(k * (k + 1real) > 0real) by(nonlinear_arith) requires k >= 1real;
+}
+
+// ---- population variance (StandardDeviation, BollingerBands)
+pub open spec fn seq_sumsq(s: Seq<f64>) -> real decreases s.len() {
+    if s.len() == 0 { 0real } else { seq_sumsq(s.drop_last()) + rv(s.last()) * rv(s.last()) }
+}
+pub open spec fn seq_sqdev(s: Seq<f64>, mu: real) -> real decreases s.len() {
+    if s.len() == 0 { 0real } else { seq_sqdev(s.drop_last(), mu) + (rv(s.last()) - mu) * (rv(s.last()) - mu) }
+}
+pub open spec fn seq_popvar(w: Seq<f64>) -> real { seq_sqdev(w, seq_mean(w)) / (w.len() as real) }
+pub proof fn lemma_sumsq_push(s: Seq<f64>, x: f64)
+    ensures seq_sumsq(s.push(x)) == seq_sumsq(s) + rv(x) * rv(x)
+{ assert(s.push(x).drop_last() =~= s); }
+pub proof fn lemma_sumsq_drop_first(s: Seq<f64>)
+    requires s.len() >= 1
+    ensures seq_sumsq(s.subrange(1, s.len() as int)) == seq_sumsq(s) - rv(s[0]) * rv(s[0])
+    decreases s.len()
+{
+    if s.len() == 1 {
+        assert(s.drop_last() =~= Seq::<f64>::empty());
+        assert(s.subrange(1, 1) =~= Seq::<f64>::empty());
+    } else {
+        lemma_sumsq_drop_first(s.drop_last());
+        assert(s.subrange(1, s.len() as int).drop_last() =~= s.drop_last().subrange(1, s.len() - 1));
+    }
+}
+pub proof fn lemma_sumsq_step(w: Seq<f64>, x: f64, n: int)
+    requires n >= 1, w.len() <= n
+    ensures seq_sumsq(push_trunc(w, x, n)) == seq_sumsq(w) + rv(x) * rv(x) - (if w.len() < n { 0real } else { rv(w[0]) * rv(w[0]) })
+{
+    if w.len() < n { lemma_sumsq_push(w, x); }
+    else { lemma_sumsq_drop_first(w); lemma_sumsq_push(w.subrange(1, w.len() as int), x); }
+}
+pub proof fn lemma_sqdev_expand(s: Seq<f64>, mu: real)
+    ensures seq_sqdev(s, mu) == seq_sumsq(s) - 2real * mu * seq_sum(s) + (s.len() as real) * mu * mu
+    decreases s.len()
+{
+    if s.len() > 0 {
+        lemma_sqdev_expand(s.drop_last(), mu);
+        let x = rv(s.last()); let n1 = (s.len() - 1) as real; let a = seq_sumsq(s.drop_last()); let b = seq_sum(s.drop_last());
+        assert(s.len() as real == n1 + 1real);
+        assert((a - 2real * mu * b + n1 * mu * mu) + (x - mu) * (x - mu) == (a + x * x) - 2real * mu * (b + x) + (n1 + 1real) * mu * mu) by(nonlinear_arith);
+    }
+}
+pub proof fn lemma_sqdev_nonneg(s: Seq<f64>, mu: real)
+    ensures seq_sqdev(s, mu) >= 0real
+    decreases s.len()
+{
+    if s.len() > 0 { lemma_sqdev_nonneg(s.drop_last(), mu);
+        let d = rv(s.last()) - mu; assert(d * d >= 0real) by(nonlinear_arith); }
+}
+pub proof fn alg_mean_update(m0: real, d: real, c: real)
+    requires c != 0real
+    ensures (m0 + d / c) * c == m0 * c + d
+{ assert((m0 + d / c) * c == m0 * c + d) by(nonlinear_arith) requires c != 0real; }
+pub proof fn alg_distr1(m: real, c: real) ensures m*(c+1real) == m*c + m
+{ assert(m*(c+1real) == m*c + m) by(nonlinear_arith); }
+
+pub open spec fn mean_ok(m: real, c: real, s: real) -> bool { m * c == s }
+pub open spec fn m2_ok(m2: real, q: real, c: real, m: real) -> bool { m2 == q - c*m*m }
+
+// one warm-up step of Welford's update keeps  m*c = sum  and  m2 = sumsq - c*m^2
+pub proof fn step_grow(c: real, s0: real, q0: real, m0: real, m2_0: real, x: real, m1: real, m2_1: real)
+    requires c >= 0real, mean_ok(m0, c, s0), m2_ok(m2_0, q0, c, m0),
+        m1 == m0 + (x - m0) / (c + 1real),
+        m2_1 == m2_0 + (x - m0) * (x - m1),
+    ensures mean_ok(m1, c + 1real, s0 + x), m2_ok(m2_1, q0 + x*x, c + 1real, m1)
+{
+    alg_mean_update(m0, x - m0, c + 1real);
+    alg_distr1(m0, c);
+    assert(m1 * (c + 1real) == m0 * c + x);
+    assert(x == m1*(c+1real) - m0*c);
+    alg_grow(c, m0, m1);
+}
+// one sliding step (evict o, add x) keeps the same two invariants
+pub proof fn step_slide(n: real, s0: real, q0: real, m0: real, m2_0: real, x: real, o: real, m1: real, m2_1: real)
+    requires n >= 1real, mean_ok(m0, n, s0), m2_ok(m2_0, q0, n, m0),
+        m1 == m0 + (x - o) / n,
+        m2_1 == m2_0 + (x - o) * (x - m1 + o - m0),
+    ensures mean_ok(m1, n, s0 - o + x), m2_ok(m2_1, q0 - o*o + x*x, n, m1)
+{
+    alg_mean_update(m0, x - o, n);
+    assert(m1 * n == m0 * n + (x - o));
+    let d = x - o;
+    assert(x == o + d);
+    alg_slide_a(d, o, m0, m1);
+    alg_slide_b(n, m0, m1);
+    assert(d == m1 * n - m0 * n);
+    assert(m1 * n == n * m1 && m0 * n == n * m0) by(nonlinear_arith);
+}
+pub proof fn lemma_sqdev_at_mean(s: Seq<f64>, mu: real)
+    requires mean_ok(mu, s.len() as real, seq_sum(s))
+    ensures seq_sqdev(s, mu) == seq_sumsq(s) - (s.len() as real) * mu * mu
+{
+    lemma_sqdev_expand(s, mu);
+    let c = s.len() as real; let q = seq_sumsq(s);
+    assert(q - 2real * mu * (mu * c) + c * mu * mu == q - c * mu * mu) by(nonlinear_arith);
+}
+
+// ---- mean absolute deviation about the window mean
+pub open spec fn seq_absdev(s: Seq<f64>, mu: real) -> real decreases s.len() {
+    if s.len() == 0 { 0real } else { seq_absdev(s.drop_last(), mu) + rabs(rv(s.last()) - mu) }
+}
+pub open spec fn seq_mad(w: Seq<f64>) -> real { seq_absdev(w, seq_mean(w)) / (w.len() as real) }
+pub proof fn lemma_absdev_concat(a: Seq<f64>, b: Seq<f64>, mu: real)
+    ensures seq_absdev(a + b, mu) == seq_absdev(a, mu) + seq_absdev(b, mu)
+    decreases b.len()
+{
+    if b.len() == 0 { assert(a + b =~= a); } else {
+        assert((a + b).drop_last() =~= a + b.drop_last());
+        assert((a + b).last() == b.last());
+        lemma_absdev_concat(a, b.drop_last(), mu);
+    }
+}
+pub proof fn lemma_absdev_nonneg(s: Seq<f64>, mu: real)
+    ensures seq_absdev(s, mu) >= 0real
+    decreases s.len()
+{ if s.len() > 0 { lemma_absdev_nonneg(s.drop_last(), mu); } }
+// the raw buffer prefix [0, count) is a rotation of the chronological window: same absolute deviation
+pub proof fn lemma_absdev_ring(d: Seq<f64>, index: int, count: int, mu: real)
+    requires ring_ok(d, index, count)
+    ensures seq_absdev(d.subrange(0, count), mu) == seq_absdev(ring_win(d, index, count), mu)
+{
+    if count < d.len() { assert(ring_win(d, index, count) =~= d.subrange(0, count)); }
+    else {
+        lemma_absdev_concat(d.subrange(index, count), d.subrange(0, index), mu);
+        lemma_absdev_concat(d.subrange(0, index), d.subrange(index, count), mu);
+        assert(d.subrange(0, index) + d.subrange(index, count) =~= d.subrange(0, count));
+    }
+}
